@@ -131,6 +131,7 @@ def run_mapping(
                         "unable to write to "
                         f"{pth.resolve().absolute()}")
 
+    tmp_result_dir = None
     try:
         if config['tmp_dir'] is not None:
             tmp_result_dir = tempfile.mkdtemp(
@@ -179,7 +180,6 @@ def run_mapping(
                         },
                         indent=2))
 
-        _clean_up(tmp_result_dir)
         log.info("MAPPING FROM SPECIFIED MARKERS RAN SUCCESSFULLY")
     except Exception:
         traceback_msg = "an ERROR occurred ===="
@@ -187,6 +187,7 @@ def run_mapping(
         log.add_msg(traceback_msg)
         raise
     finally:
+        _clean_up(tmp_result_dir)
         _clean_up(tmp_dir)
         log.info("CLEANING UP")
         if log_path is not None:
